@@ -349,7 +349,7 @@ loop:
 			d.Signal = ws.Signal().String()
 		}
 		if d.Exit == 66 {
-			d.Kind = "race"
+			d.Kind = "sanitizer-failure" // refined to "race" below if the log holds a race report
 		}
 	}
 	stderr, _ := os.ReadFile(werr)
